@@ -14,7 +14,14 @@
 (* concurrent callers could share a time: finding C06-concurrent-callers-share-    *)
 (* time, fixed.  mutants/m_c06_unfix.diff restores that code; the check catches it.)*)
 (*   NotifyMsg(user event / query at lt): Begin; Wit; Cur; Del                   *)
-(*   Wit  clock.Witness(lt)                  (atomic here; its internals are C19) *)
+(*   Wit  clock.Witness(lt), at the granularity of serf/lamport.go (the harness    *)
+(*        yields inside lamport.go too):                                          *)
+(*          WL  wcur := counter.Load()                                            *)
+(*          WT  if lt < wcur then return                                          *)
+(*          WC  if CAS(wcur, lt+1) then return else goto WL                       *)
+(*        A local Increment landing between WL and WC makes the CAS fail; the retry *)
+(*        is what keeps later local times above the witnessed one (first clause of  *)
+(*        C06).  Increment and Time are single atomic accesses.                     *)
 (*   Cur  lock taken; min-time test; curTime := clock.Time(); too-old test        *)
 (*   Del  slot lookup, duplicate test, append, delivery on EventCh; lock released *)
 (*   Fin  the call returns                                                        *)
@@ -37,7 +44,7 @@ Threads == 1..NT
 VARIABLES S, M, last
 vars == <<S, M, last>>
 
-IdleTh == [pc |-> "idle", i |-> 0, lt |-> -1, drop |-> FALSE]
+IdleTh == [pc |-> "idle", i |-> 0, lt |-> -1, wcur |-> -1, drop |-> FALSE]
 InitS(p) == [b |-> p.b, ec |-> 1, emin |-> 0, ebuf |-> EmptyBuf(p.b), qc |-> 1, qmin |-> 0, qbuf |-> EmptyBuf(p.b),
              el |-> 0, ql |-> 0, th |-> [t \in DOMAIN p.th |-> IdleTh], prog |-> p.th, dl |-> <<>>]
 
@@ -57,13 +64,16 @@ Acts(s0, t) ==
   IF th.pc = "idle" THEN (IF HasOp(s, t) THEN { [s EXCEPT !.th[t].pc = "go"] } ELSE {})
   ELSE LET o == CurOp(s, t) IN
   CASE th.pc = "go" ->
-         IF o.op = "uev" THEN { [s EXCEPT !.th[t].lt = s.ec, !.ec = Wrap(s.ec + 1), !.th[t].pc = "wit"] }
+         IF o.op = "uev" THEN { [s EXCEPT !.th[t].lt = s.ec, !.ec = Wrap(s.ec + 1), !.th[t].pc = "wl"] }
          ELSE IF o.op = "lq" THEN { [s EXCEPT !.th[t].lt = s.qc, !.qc = Wrap(s.qc + 1), !.th[t].pc = "reg"] }
-         ELSE IF o.op = "ev" THEN { [s EXCEPT !.th[t].lt = o.lt, !.ec = Witness(s.ec, o.lt), !.th[t].pc = "cur"] }
-         ELSE { [s EXCEPT !.th[t].lt = o.lt, !.qc = Witness(s.qc, o.lt), !.th[t].pc = "cur"] }
-    [] th.pc = "reg" -> IF s.ql = 0 THEN { [s EXCEPT !.th[t].pc = "wit"] } ELSE {}
-    [] th.pc = "wit" -> IF IsE(o) THEN { [s EXCEPT !.ec = Witness(s.ec, th.lt), !.th[t].pc = "cur"] }
-                                  ELSE { [s EXCEPT !.qc = Witness(s.qc, th.lt), !.th[t].pc = "cur"] }
+         ELSE { [s EXCEPT !.th[t].lt = o.lt, !.th[t].pc = "wl"] }          \* incoming: the time is in the message
+    [] th.pc = "reg" -> IF s.ql = 0 THEN { [s EXCEPT !.th[t].pc = "wl"] } ELSE {}
+    [] th.pc = "wl" -> { [s EXCEPT !.th[t].wcur = IF IsE(o) THEN s.ec ELSE s.qc, !.th[t].pc = "wt"] }
+    [] th.pc = "wt" -> IF Lt(th.lt, th.wcur) THEN { [s EXCEPT !.th[t].pc = "cur"] } ELSE { [s EXCEPT !.th[t].pc = "wc"] }
+    [] th.pc = "wc" ->
+         IF (IF IsE(o) THEN s.ec ELSE s.qc) # th.wcur THEN { [s EXCEPT !.th[t].pc = "wl"] }      \* CAS failed: retry
+         ELSE IF IsE(o) THEN { [s EXCEPT !.ec = Wrap(th.lt + 1), !.th[t].pc = "cur"] }
+                        ELSE { [s EXCEPT !.qc = Wrap(th.lt + 1), !.th[t].pc = "cur"] }
     [] th.pc = "cur" ->
          IF IsE(o) THEN (IF s.el # 0 THEN {} ELSE
               { [s EXCEPT !.el = t, !.th[t].pc = "del",
